@@ -182,15 +182,16 @@ fn calculate_key_id(
         false,
         None,
     )?;
-    let public_key = Json::canonicalize(&Json::serialize(&public_key)?)?;
-    let public_key = String::from_utf8(public_key)
-        .map_err(|e| {
-            Error::Encoding(format!(
-                "public key from bytes to string failed: {}",
-                e,
-            ))
-        })?
-        .replace("\\n", "\n");
+    let public_key = crate::interchange::cjson::canonicalize_for_signing(
+        &Json::serialize(&public_key)?,
+    )
+    .map_err(Error::Opaque)?;
+    let public_key = String::from_utf8(public_key).map_err(|e| {
+        Error::Encoding(format!(
+            "public key from bytes to string failed: {}",
+            e,
+        ))
+    })?;
     let mut context = digest::Context::new(&SHA256);
     context.update(public_key.as_bytes());
 
